@@ -172,8 +172,8 @@ theorem entry_chain_spec (hc : CfgOk cfg) {env : Env} {H : Nat → Nat} (hl : La
         w'.t = w.t ∧ w'.log = dropEvs cfg [e] ++ w.log) :=
   Hb.entry_chain_spec hc hl halloc hnd k kid c w h
 
-/-- `map.entry_ref(&key)` + any chain (`refOccSpec` = `occSpec` except that `key()` returns the
-    borrowed key; `refVacSpec`: the owned key object `(k, newkid)` is created only by the inserting
+/-- `map.entry_ref(&key)` + any chain (`refOccSpec` = `occSpec` except that `key()` reports only
+    the key value — the stored key, equal to the probe under a lawful `Eq`; `refVacSpec`: the owned key object `(k, newkid)` is created only by the inserting
     chains `insert` / `or_insert` / `and_modify().or_insert()`). -/
 theorem entryRef_chain_spec (hc : CfgOk cfg) {env : Env} {H : Nat → Nat} (hl : Lawful env H)
     (halloc : ∀ j, env.allocOk j = true) (hnd : ∀ c e, env.dropPanics c e = false)
